@@ -293,22 +293,20 @@ Section Parser.
               run fuel' (TCollect ps o (push_pending st fin pos) (pos + length fin))
           | [] =>
               let st' := flush ps st in
-              (* the flush in [finalize] may itself meet the node-list stop condition:
-                 ReachedStoppingCondition then escapes from the [finally] clause *)
-              if negb (nlstop_is_none (g_nl o)) && negb (Nat.eqb (length (cs_acc st')) (length (cs_acc st)))
-                 && nl_stop_met (g_nl o) (cs_acc st')
-              then RExn 1
-              else finish st' None false true pos
+              (* the flush in [finalize] may itself meet the node-list stop condition
+                 (fix 484c9a0: that is a normal stop) *)
+              let nlmet := negb (Nat.eqb (length (cs_acc st')) (length (cs_acc st)))
+                           && nl_stop_met (g_nl o) (cs_acc st') in
+              finish st' None nlmet true pos
           end
       | TokOk t =>
           if stop_matches (g_stop o) t then
             let st1 := if g_incl_pre o then push_pending st (tpre t) (tpos t - length (tpre t)) else st in
             let p' := if g_incl_pre o then tpos t else tpos t - length (tpre t) in
             let st2 := flush ps st1 in
-            if negb (nlstop_is_none (g_nl o)) && negb (Nat.eqb (length (cs_acc st2)) (length (cs_acc st1)))
-               && nl_stop_met (g_nl o) (cs_acc st2)
-            then RExn 1
-            else finish st2 (Some t) false false p'
+            let nlmet := negb (Nat.eqb (length (cs_acc st2)) (length (cs_acc st1)))
+                         && nl_stop_met (g_nl o) (cs_acc st2) in
+            finish st2 (Some t) nlmet false p'
           else
           match tk t with
           | TkChar =>
@@ -520,7 +518,10 @@ Section Parser.
                   (finish [Some (NMacro (tpos t) (tend t) (ps_mode ps) (targ t) (tpost t) None)] p1)
               else
               match get_macro_spec cx (targ t) with
-              | None => RExn 4                               (* AttributeError on None spec *)
+              | None =>
+                  (* unknown macro, no fallback spec (fix: same error as the collector) *)
+                  strict_err 5 (tpos t) p1
+                    (finish [Some (NMacro (tpos t) (tend t) (ps_mode ps) (targ t) (tpost t) None)] p1)
               | Some sp =>
                   (* [spec.get_node_parser(tok).contents_can_be_empty()] is LatexParserBase's default: True *)
                   finish [Some (NMacro (tpos t) (tend t) (ps_mode ps) (targ t) (tpost t) (Some ([], [])))] p1
